@@ -26,7 +26,10 @@ func (r *rMem) push(v int, isNil bool) {
 }
 
 func (r *rMem) clone() *rMem {
-	c := &rMem{glob: r.glob, clo: r.clo}
+	c := &rMem{glob: r.glob}
+	for _, f := range r.clo {
+		c.clo = append(c.clo, f) // a forked context has its own stack of captured frames
+	}
 	if len(r.fp) >= 2 {
 		fp, le := r.fp[len(r.fp)-2], r.fp[len(r.fp)-1]
 		c.st = append([]int{}, r.st[fp:]...)
@@ -251,6 +254,16 @@ func c18PushN(p vPair, n int) {
 
 func c18Call(p vPair, a, extra int) {
 	p.m.PushFrame(a, a+extra)
+	n := 1 // one captured variable per activation
+	fr := make(Frame, 0, n)
+	var rf []int
+	for i := 0; i < n; i++ {
+		v := vrt.Int("cv")
+		fr = append(fr, value.NewInt(v))
+		rf = append(rf, v)
+	}
+	p.m.PushClosure(fr)
+	p.r.clo = append(p.r.clo, rf)
 	for i := 0; i < extra; i++ {
 		p.r.push(0, true)
 	}
@@ -265,6 +278,8 @@ func c18Ret(p vPair) {
 	gv, ok := p.m.IP().ToInt()
 	vrt.Assert(ok && gv == r.st[r.fp[len(r.fp)-1]], "return-address-holds-its-value")
 	p.m.PopFrame()
+	p.m.PopClosure()
+	r.clo = r.clo[:len(r.clo)-1]
 	fp := r.fp[len(r.fp)-2]
 	r.st, r.isn = r.st[:fp], r.isn[:fp]
 	r.fp = r.fp[:len(r.fp)-2]
@@ -317,11 +332,14 @@ func VerifC18Frames() {
 // and operands, and writes on either side must not reach the other.
 func VerifC18Recycle() {
 	p := vPair{m: New(), r: &rMem{glob: map[string]int{}}}
+	for d := vrt.Choice("outer-calls", 3); d > 0; d-- {
+		c18Call(p, 0, 1)
+	}
 	if vrt.Bool("fork-inside-a-call") {
-		c18PushN(p, vrt.Choice("operands0", 3))
+		c18PushN(p, vrt.Choice("operands0", 2))
 		c18Call(p, 0, c18Size("locals0"))
 		c18Fill(p)
-		c18PushN(p, vrt.Choice("scratch0", 3))
+		c18PushN(p, vrt.Choice("scratch0", 2))
 	}
 	c := vPair{m: p.m.Clone(nil), r: p.r.clone()}
 	c18Compare(c, "fresh-fork")
@@ -332,15 +350,23 @@ func VerifC18Recycle() {
 	}
 	c18Compare(c, "fork-used")
 	c18Compare(p, "parent-after-fork-used")
+	if vrt.Bool("body-calls") {
+		// the loop body (parent context) calls a function while the generator is suspended
+		c18Call(p, 0, 1)
+		c18Compare(c, "fork-while-parent-in-call")
+		c18Compare(p, "parent-in-call")
+		c18Ret(p)
+		c18Compare(c, "fork-after-parent-call")
+	}
 	// the fork is abandoned; the parent moves on to another activation
 	if len(p.r.fp) >= 2 && vrt.Bool("return-first") {
 		c18Drain(p, "parent-scratch")
 		c18Ret(p)
 	}
-	c18PushN(p, vrt.Choice("operands1", 3))
+	c18PushN(p, vrt.Choice("operands1", 2))
 	c18Call(p, 0, c18Size("locals1"))
 	c18Fill(p)
-	c18PushN(p, vrt.Choice("scratch1", 3))
+	c18PushN(p, vrt.Choice("scratch1", 2))
 	c2 := vPair{m: p.m.Clone(c.m), r: p.r.clone()}
 	c18Compare(c2, "recycled-fork")
 	c18Fill(c2)
